@@ -130,7 +130,7 @@ def _rare_items() -> List[str]:
             "unknown-setting", "client-rst-running", "connect-protocol-no-version", "options-star",
             "path-without-slash", "huge-header-value", "many-cookies", "percent-garbage-path",
             "window-update-stream", "priority-on-closed", "te-trailers-header", "expect-continue", "head-with-body",
-            "late-data-large"]
+            "late-data-large", "window-update-after-response", "rst-after-response"]
 
 
 def plan(tier: str) -> dict:
@@ -438,6 +438,16 @@ def _build_rare(tape: Tape, world: World, host: AppHost, case: Optional[dict], i
                     peer.queue_upload(up, b"U" * 20000, True)
 
             st.append(("call", open_upload))
+        elif item in ("window-update-after-response", "rst-after-response"):
+            # the answer comes before the request body has ended: the server has finished with the stream while
+            # the client may still credit or reset it
+            host.programs[tag] = [("respond", 200, [], [b"early"])]
+            st.append(send(lambda: peer.headers(sid, hdrs(tag, b"POST"))))
+            st.append(("wait", lambda sc, sid=sid: peer.streams.get(sid) is not None and peer.streams[sid].ended, 1.0))
+            if item == "window-update-after-response":
+                st.append(send(lambda: hf.WindowUpdateFrame(sid, window_increment=1000).serialize()))
+            else:
+                st.append(send(lambda: hf.RstStreamFrame(sid, error_code=8).serialize()))
         elif item == "non-ascii-path":
             st.append(send(lambda: peer.headers(sid, hdrs(tag, path=b"/caf\xc3\xa9/\xff\xfe"), end_stream=True)))
         elif item == "zero-length-data":
